@@ -222,8 +222,8 @@ func ruleIdx(c *Ctx) {
 		}
 		return true
 	})
-	if n < 8 {
-		c.R.Undecided("R-IDX", f.Name, "instance-floor", fmt.Sprintf("only %d index sites into the handshake fields found, at least 8 were confirmed by hand", n))
+	if n < 7 {
+		c.R.Undecided("R-IDX", f.Name, "instance-floor", fmt.Sprintf("only %d index sites into the handshake fields found, at least 7 (one per field) were confirmed by hand", n))
 	}
 }
 
